@@ -282,7 +282,8 @@ class _AllWorkingTracker:
 class ManagerWorld:
     """A real BatteryManager fed the case's data through the fake API (inside world.run)."""
 
-    def __init__(self, case_groups: list[dict[str, Any]], timeout_s: float = 5.0) -> None:
+    def __init__(self, case_groups: list[dict[str, Any]], timeout_s: float = 5.0, real_tracker: bool = False) -> None:
+        self.real_tracker = real_tracker   # keep the SDK's ComponentPoolStatusTracker instead of the all-working stub
         self.groups = case_groups
         self.ids = assign_ids(case_groups)
         self.timeout_s = timeout_s
@@ -308,7 +309,8 @@ class ManagerWorld:
         self.api = fakes.FakeApi(comps, conns)
         self._stack = contextlib.ExitStack()
         self._stack.enter_context(fakes.connection(fakes.build_graph(comps, conns), self.api))
-        self._stack.enter_context(mock.patch.object(_battery_manager, "ComponentPoolStatusTracker", _AllWorkingTracker))
+        if not self.real_tracker:
+            self._stack.enter_context(mock.patch.object(_battery_manager, "ComponentPoolStatusTracker", _AllWorkingTracker))
         self.status_chan: Any = Broadcast(name="pool-status")
         self.results_chan: Any = Broadcast(name="results")
         self.results_rx = self.results_chan.new_receiver(limit=100)
@@ -316,8 +318,14 @@ class ManagerWorld:
             self.status_chan.new_sender(), self.results_chan.new_sender(), timedelta(seconds=self.timeout_s)
         )
         await self.manager.start()
+        if self.real_tracker:
+            # the per-battery status trackers subscribe to the API streams in their own tasks
+            await world.settle(3)
         await self.feed()
         await world.settle(2)
+        if self.real_tracker:
+            await self.feed()
+            await world.settle(3)
         return self
 
     async def feed(self) -> None:
